@@ -58,6 +58,17 @@ def b_len(I, a, k, node):
         return len(v.items)
     if isinstance(v, ADict) and not v.open:
         return len(v.items)
+    if isinstance(v, Unk) and getattr(v, 'one_of', None):
+        try:
+            ls = {len(concrete(c)) for c in v.one_of}
+            if len(ls) == 1:
+                return ls.pop()
+            u = Unk('len', kinds=['int'])
+            u.in_sets.append(frozenset(ls))
+            u.facts.add('>=%d' % min(ls))
+            return u
+        except TypeError:
+            pass
     if isinstance(v, Unk):
         ks = v.kinds
         if not (ks is not None and ks <= {'str', 'bytes', 'list', 'tuple', 'dict', 'set'}):
@@ -427,6 +438,9 @@ def b_getlogger(I, a, k, node):
 
 def b_codecs_lookup(I, a, k, node):
     v = a[0]
+    mk = ('codecs.lookup', id(v))
+    if mk in I.memo and isinstance(v, Unk) and 'codec-ok' in v.facts:
+        return I.memo[mk]
     if not codec_ok(v):
         excs = ['LookupError']
         kv = kind_of(v)
@@ -436,6 +450,7 @@ def b_codecs_lookup(I, a, k, node):
     if isinstance(v, Unk):
         v.facts.add('codec-ok')
     o = Unk('codecinfo', kinds=['obj'], taint=tj(v), src=('call', 'codecs.lookup', a))
+    I.memo[mk] = o
     return o
 
 
@@ -732,11 +747,25 @@ def m_get(I, recv, a, k, node, kind):
             return default
         if isinstance(key, Unk) and not recv.open and recv.items:
             ks = [x for x in recv.items if all(x in s for s in key.in_sets) and x not in key.neq]
-            n = len(ks)
-            c = I.choose(n + 1, 'get')
-            if c < n:
-                key.pin(ks[c])
-                return recv.items[ks[c]]
+            if len(ks) == 1 and any(frozenset(ks) >= s for s in key.in_sets):
+                key.pin(ks[0])
+                return recv.items[ks[0]]
+            mk = ('get-hit', id(recv), id(key))
+            if mk not in I.memo:
+                I.memo[mk] = I.choose(2, 'get-hit') if ks else 1
+            if ks and I.memo[mk] == 0:
+                kinds = set()
+                for x in ks:
+                    kk = kind_of(recv.items[x])
+                    if kk is None:
+                        kinds = None
+                        break
+                    kinds |= kk
+                u = Unk('%s.get(%s)' % (recv.name, key.name), kinds=kinds, taint=tj(key), src=('item', recv, key))
+                u.one_of = [recv.items[x] for x in ks]
+                u.facts.add('truthy' if all(M.truthy_concrete(concrete(recv.items[x])) for x in ks) else 'x')
+                key.in_sets.append(frozenset(ks))
+                return u
             key.notin_sets.append(frozenset(recv.items))
             return default
         return Unk('%s.get' % recv.name, taint=tj(recv), src=('item', recv, key))
